@@ -10,9 +10,10 @@ import (
 	"errors"
 	"fmt"
 	"io"
+	"mime"
 	"net"
 	"net/http"
-	"regexp"
+	"os"
 	"runtime"
 	"strings"
 	"sync"
@@ -32,15 +33,21 @@ func init() {
 		ID:    "C12",
 		Level: "fault_enumeration",
 		Race:  true,
-		Rule: "enumeration of fault placements around Submit: (presend) parameter-writer / auth-writer / unparsable URL / invalid method errors after upload sources were handed over; (upload) read error at every byte offset of file and stream sources of every length 0..L; " +
-			"(roundtrip) scripted RoundTripper failing before/after consuming the request body, and scripted response bodies x reader behaviours x connection reuse; (server) a raw loopback TCP server that closes, resets, stalls or truncates at every byte offset of a canned response (Content-Length and chunked); " +
-			"(cancel) context cancelled at each hook point of Submit; (drain) every Read-size sequence then Close on the connection-reuse body wrapper. Monitors: close counters on every source and response body, bytes left unread at Close, goroutine census on client frames (before/after, settle loop), what the fault point actually delivered, Submit's error. " +
-			"non-trivial = a case whose fault was confirmed to have fired where scripted; distinct by (kind, fault, offset, payload, reuse, deadline source)",
+		Rule: "enumeration of fault placements around Submit: (presend) parameter-writer / auth-writer / unparsable URL / invalid method / no-producer / failing-producer / directory-as-file errors after upload sources were handed over (instrumented sources, sources with a declared type, a real temporary file, multipart documents of plain form fields only); (upload) read error at every byte offset of file and stream sources of every length 0..L, sources whose Close errs; " +
+			"(roundtrip) scripted RoundTripper failing before/after consuming the request body, and scripted response bodies x reader behaviours (reads all / half / nothing / fails / closes the body itself / moves the body with io.Copy, the byte-stream consumer or a ReadFrom destination into a destination that refuses part-way) x response Content-Types (usable, absent, no consumer, not parsable) x connection reuse (enabled before the first call, with a configured client, with a client that has no transport, after a first call, through the operation's own client); " +
+			"(server) a raw loopback TCP server that closes, resets, stalls or truncates at every byte offset of a canned response (Content-Length and chunked), or accepts and never reads a 16 MiB upload, x deadline source (request timeout, context from the operation or from Runtime.Context or none, both) x the Runtime's or the operation's client; quick tier: every offset x action, reuse by offset parity except at structural offsets, one deadline source per stall offset (documented in enumerate); " +
+			"(cancel) context cancelled at each hook point of Submit, also against a server that holds its answer while the call has no timeout; (drain) every Read-size sequence, optionally followed by an io.Copy into a failing destination, then Close on the connection-reuse body wrapper. Monitors: close counters on every source and response body, bytes left unread at Close, what the reader was shown (bytes, error), goroutine census on client frames (before/after, settle loop on goroutine states), what the fault point actually delivered, Submit's error. " +
+			"non-trivial = a case whose fault was confirmed to have fired where scripted; distinct by (kind, fault, offset, payload, reuse, deadline source, reader, configuration)",
 		Assumptions: []string{
-			"'no later than the deadline' is judged as termination: Submit must return while the fault is still held; a call that has not returned after 200x its effective deadline is a violation (non-termination is what the property forbids)",
+			"'no later than the deadline' is judged as termination: Submit must return while the fault is still held; a call that has not returned after 200x its effective deadline AND whose goroutine is parked (not merely starved of CPU) is a violation (non-termination is what the property forbids)",
 			"a scripted RoundTripper honours the RoundTripper contract (it closes the request body)",
 			"goroutines are attributed to the call by frames of package github.com/go-openapi/runtime/client; net/http's own connection goroutines are not counted",
+			"'no goroutine remains' is decided on goroutine states, not on a time limit: with a scripted (synchronous) transport a goroutine of the call that is parked once Submit has returned can only be woken by another goroutine of the call, so 'all parked, same picture over several censuses' is final; with a real http.Transport (whose connection goroutines release the request body after RoundTrip returned) the census polls with early exit for 20 s, goes on up to 60 s while a goroutine is still runnable, and files 'still running at the end' as inconclusive",
 			"when the response reader does not read the body to its end, 'complete response obtained' is not decidable by the call: server-fault cases use a reader that consumes the body through the consumer",
+			"a stream handed over as the BODY payload (io.ReadCloser) is not a 'file handed over for upload': its release after a pre-send error is counted (class probe:readcloser-payload-*), not judged",
+			"whether an error reported by Close of a stream payload that delivered every byte fails the call is outside the statement (counted)",
+			"a cancellation placed before client.Do that nevertheless ends in a complete response is counted, not judged (the statement allows success when the complete response was obtained); the dropped cancellation is judged where only it can end the call (server holds, no timeout)",
+			"a failure of the harness's own scaffolding (no listener, no temporary file or directory, no connection to the loopback server) makes the case inconclusive, never a violation",
 		},
 		MinNontrivial: 100,
 		QuickShards:   4,
@@ -88,10 +95,26 @@ type Case struct {
 	EOFWith   bool   `json:"eofWithData,omitempty"`
 	// Perturb > 0: a PRNG-driven callback yields / sleeps at the client hook points during the case
 	Perturb int `json:"perturb,omitempty"`
+	// OpClient: the operation brings its own http.Client (ClientOperation.Client) over the case's transport; the
+	// Runtime's own transport is a trap that must stay unused
+	OpClient bool `json:"opClient,omitempty"`
+	// CtxVia: where the caller's context is handed over: "" ClientOperation.Context; "runtime" Runtime.Context (the
+	// operation has none)
+	CtxVia string `json:"ctxVia,omitempty"`
+	// WriteFailAt: readers copy-fail / consume-fail / readfrom-fail move the body into a destination that refuses
+	// to take more than that many bytes
+	WriteFailAt int `json:"writeFailAt,omitempty"`
+	// CopyFailAt > 0 (drain kind): after the Read sequence the rest is moved with io.Copy into a destination that
+	// fails after that many bytes; then Close
+	CopyFailAt int `json:"copyFailAt,omitempty"`
+	// ServerHolds (cancel kind): the server does not answer before the verdict is in and the call has no timeout
+	// of its own: only the cancellation can end it
+	ServerHolds bool `json:"serverHolds,omitempty"`
 }
 
 func (c *Case) key() string {
-	return fmt.Sprintf("%s|%s|%s|%d|%d|%d|%v|%s|%s|%v|%s|%v|%v|%d", c.Kind, c.Payload, c.Fault, c.Offset, c.Len, c.Chunk, c.Reuse, c.Deadline, c.Reader, c.Chunked, c.HookPoint, c.Sizes, c.EOFWith, c.Perturb) + "|" + c.ReuseVia + fmt.Sprintf("|%d|%s|%v|%d|%d|%v|%d|%v|%v", c.RespLen, c.RespCT, c.CloseFails, c.FaultSrc, c.RespStatus, c.RespKnownLen, c.RespFailAt, c.Debug, c.AuthGetBody)
+	return fmt.Sprintf("%s|%s|%s|%d|%d|%d|%v|%s|%s|%v|%s|%v|%v|%d", c.Kind, c.Payload, c.Fault, c.Offset, c.Len, c.Chunk, c.Reuse, c.Deadline, c.Reader, c.Chunked, c.HookPoint, c.Sizes, c.EOFWith, c.Perturb) + "|" + c.ReuseVia + fmt.Sprintf("|%d|%s|%v|%d|%d|%v|%d|%v|%v", c.RespLen, c.RespCT, c.CloseFails, c.FaultSrc, c.RespStatus, c.RespKnownLen, c.RespFailAt, c.Debug, c.AuthGetBody) +
+		fmt.Sprintf("|%v|%s|%d|%d|%v", c.OpClient, c.CtxVia, c.WriteFailAt, c.CopyFailAt, c.ServerHolds)
 }
 
 // switchRT serves a first, benign exchange itself and hands every later request to next.
@@ -125,6 +148,12 @@ func newRuntime(c *Case, host string, tr http.RoundTripper) *client.Runtime {
 		r := client.NewWithClient(host, "/api", []string{"http"}, &http.Client{Transport: tr})
 		r.EnableConnectionReuse()
 		return r
+	case "with-client-nil-transport":
+		// a configured client without a transport of its own: reuse wraps the Runtime's transport into it
+		r := client.NewWithClient(host, "/api", []string{"http"}, &http.Client{})
+		r.Transport = tr
+		r.EnableConnectionReuse()
+		return r
 	case "after-first-call":
 		r := client.New(host, "/api", []string{"http"})
 		r.Transport = &switchRT{next: tr}
@@ -141,6 +170,50 @@ func newRuntime(c *Case, host string, tr http.RoundTripper) *client.Runtime {
 	r := client.New(host, "/api", []string{"http"})
 	r.Transport = tr
 	r.EnableConnectionReuse()
+	return r
+}
+
+// passRT is the Runtime's own transport when the operation brings its client: it should stay unused (counted, not
+// judged: which client carries the exchange is not C12's subject); it passes the exchange on so that the case
+// keeps its meaning.
+type passRT struct {
+	next  http.RoundTripper
+	calls int32
+}
+
+func (t *passRT) RoundTrip(r *http.Request) (*http.Response, error) {
+	atomic.AddInt32(&t.calls, 1)
+	return t.next.RoundTrip(r)
+}
+
+// wire builds the Runtime of a case and applies the case's way of handing over the client and the context to the
+// operation.
+func wire(m *mon.M, c *Case, host string, tr http.RoundTripper, op *rt.ClientOperation) *client.Runtime {
+	var r *client.Runtime
+	if c.OpClient {
+		pass := &passRT{next: tr}
+		r = newRuntime(c, host, pass)
+		opTr := tr
+		if c.Reuse {
+			opTr = client.KeepAliveTransport(tr) // the documented way: "a http client middleware that can be used to override any request"
+		}
+		op.Client = &http.Client{Transport: opTr}
+		m.Class("config:operation-client")
+	} else {
+		r = newRuntime(c, host, tr)
+	}
+	switch c.CtxVia {
+	case "runtime":
+		r.Context, op.Context = op.Context, nil
+		m.Class("config:context-from-runtime")
+	case "none":
+		// neither the operation nor the Runtime has a context: only the request timeout bounds the call
+		r.Context, op.Context = nil, nil
+		m.Class("config:no-context-anywhere")
+	}
+	if c.ReuseVia == "with-client-nil-transport" && c.Reuse {
+		m.Class("config:reuse-over-client-without-transport")
+	}
 	return r
 }
 
@@ -161,11 +234,41 @@ type source struct {
 }
 
 func newSource(name string, n, failAt, chunk int) *source {
-	d := make([]byte, n)
-	for i := range d {
-		d[i] = byte('a' + i%23)
+	return &source{name: name, data: pattern(n), failAt: failAt, chunk: chunk}
+}
+
+// pattern returns n bytes of the period-23 pattern. Large ones are cut from one shared, read-only buffer: building
+// 16 MiB inside a parameter writer would eat the (short) deadline of the case before anything is sent.
+var (
+	bigPattern     []byte
+	bigPatternOnce sync.Once
+)
+
+func pattern(n int) []byte {
+	fill := func(d []byte) {
+		const unit = 23 * 1024 // a multiple of the period: doubling keeps the pattern
+		for i := 0; i < len(d) && i < unit; i++ {
+			d[i] = byte('a' + i%23)
+		}
+		for f := unit; f < len(d); f *= 2 {
+			copy(d[f:], d[:f])
+		}
 	}
-	return &source{name: name, data: d, failAt: failAt, chunk: chunk}
+	if n < 1<<20 {
+		d := make([]byte, n)
+		fill(d)
+		return d
+	}
+	bigPatternOnce.Do(func() {
+		bigPattern = make([]byte, 16<<20)
+		fill(bigPattern)
+	})
+	if n <= len(bigPattern) {
+		return bigPattern[:n:n]
+	}
+	d := make([]byte, n)
+	fill(d)
+	return d
 }
 
 func (s *source) Name() string { return s.name }
@@ -199,6 +302,11 @@ func (s *source) Read(p []byte) (int, error) {
 	copy(p, s.data[s.pos:s.pos+n])
 	s.pos += n
 	return n, nil
+}
+func (s *source) consumed() int {
+	s.mu.Lock()
+	defer s.mu.Unlock()
+	return s.pos
 }
 func (s *source) Close() error {
 	atomic.AddInt32(&s.closed, 1)
@@ -254,6 +362,11 @@ func (b *respBody) Read(p []byte) (int, error) {
 	return n, nil
 }
 func (b *respBody) Close() error { atomic.AddInt32(&b.closed, 1); return nil }
+func (b *respBody) eofSeen() bool {
+	b.mu.Lock()
+	defer b.mu.Unlock()
+	return b.sawEOF
+}
 func (b *respBody) left() int {
 	b.mu.Lock()
 	defer b.mu.Unlock()
@@ -310,87 +423,12 @@ func (s *scriptedRT) RoundTrip(r *http.Request) (*http.Response, error) {
 	if s.knownLen {
 		cl = int64(len(s.body.data))
 	}
+	hdr := http.Header{"Content-Type": {ct}}
+	if ct == absentCT {
+		hdr = http.Header{}
+	}
 	return &http.Response{StatusCode: st, Status: fmt.Sprintf("%d %s", st, http.StatusText(st)), Proto: "HTTP/1.1", ProtoMajor: 1, ProtoMinor: 1,
-		Header: http.Header{"Content-Type": {ct}}, Body: s.body, ContentLength: cl, Request: r}, nil
-}
-
-// ---------- goroutine census ----------
-
-var gidRe = regexp.MustCompile(`^goroutine (\d+) `)
-
-func census() map[string]string {
-	buf := make([]byte, 1<<20)
-	for {
-		n := runtime.Stack(buf, true)
-		if n < len(buf) {
-			buf = buf[:n]
-			break
-		}
-		buf = make([]byte, 2*len(buf))
-	}
-	out := map[string]string{}
-	for _, g := range strings.Split(string(buf), "\n\n") {
-		if !strings.Contains(g, "github.com/go-openapi/runtime/client.") {
-			continue
-		}
-		if strings.Contains(g, "verif/props/c12.submitWatched") { // a call the harness itself is still making
-			continue
-		}
-		if m := gidRe.FindStringSubmatch(g); m != nil {
-			out[m[1]] = g
-		}
-	}
-	return out
-}
-
-// leaked waits (bounded) for the goroutines that appeared during the call to go away.
-func leaked(before map[string]string) map[string]string {
-	var cur map[string]string
-	for i := 0; i < 300; i++ {
-		cur = census()
-		for id := range before {
-			delete(cur, id)
-		}
-		if len(cur) == 0 {
-			return nil
-		}
-		if i < 50 {
-			runtime.Gosched()
-		} else {
-			time.Sleep(2 * time.Millisecond)
-		}
-	}
-	return cur
-}
-
-// ---------- running Submit under a watchdog ----------
-
-type outcome struct {
-	res      interface{}
-	err      error
-	returned bool
-	dump     string
-}
-
-func submitWatched(r *client.Runtime, op *rt.ClientOperation, limit time.Duration) outcome {
-	done := make(chan outcome, 1)
-	go func() {
-		var o outcome
-		pv, st := mon.Catch(func() { o.res, o.err = r.Submit(op) })
-		if pv != nil {
-			o.err = fmt.Errorf("PANIC: %v\n%s", pv, st)
-		}
-		o.returned = true
-		done <- o
-	}()
-	select {
-	case o := <-done:
-		return o
-	case <-time.After(limit):
-		buf := make([]byte, 1<<16)
-		n := runtime.Stack(buf, true)
-		return outcome{returned: false, dump: string(buf[:n])}
-	}
+		Header: hdr, Body: s.body, ContentLength: cl, Request: r}, nil
 }
 
 const baseDeadline = 60 * time.Millisecond
@@ -432,10 +470,93 @@ func debugOn(r *client.Runtime, c *Case) {
 }
 
 type harness struct {
-	sources []*source
-	stream  *source
-	gotBody []byte
-	readErr error
+	sources      []*source
+	stream       *source
+	gotBody      []byte
+	readErr      error
+	readerCalled bool
+	// quiescent: the transport of the case is scripted (synchronous, starts nothing): once Submit has returned only
+	// the goroutines of the call themselves can wake one another (see settle)
+	quiescent bool
+	dest      *failWriter
+	// real files: a temporary regular file handed over for upload, a directory handed to SetFileParam
+	osfiles  []*os.File
+	dir      *os.File
+	paramErr error // what SetFileParam answered for the directory
+	// harnessErr: the harness's own scaffolding failed (no temporary file, it vanished, no temporary directory):
+	// the case says nothing about the library
+	harnessErr error
+}
+
+var errHarness = errors.New("c12 harness: scaffolding failed")
+
+// typedSource declares its media type: the multipart writer copies it without sniffing the first 512 bytes.
+type typedSource struct{ *source }
+
+func (typedSource) ContentType() string { return "application/x-c12-declared" }
+
+// failWriter is a destination that takes limit bytes and then refuses (full disk, closed pipe, size limit).
+type failWriter struct {
+	limit, n int
+	failed   bool
+}
+
+var errDestination = errors.New("destination-refuses-more")
+
+func (w *failWriter) Write(p []byte) (int, error) {
+	if w.n+len(p) > w.limit {
+		k := w.limit - w.n
+		w.n = w.limit
+		w.failed = true
+		return k, errDestination
+	}
+	w.n += len(p)
+	return len(p), nil
+}
+
+// readFromDest is a destination with a ReadFrom of its own that copies internally (what *os.File does).
+type readFromDest struct{ w *failWriter }
+
+func (d readFromDest) ReadFrom(r io.Reader) (int64, error) { return io.Copy(d.w, r) }
+
+func (h *harness) tempFile(n int) (*os.File, error) {
+	f, err := os.CreateTemp("", "c12-upload-*.bin")
+	if err != nil {
+		return nil, err
+	}
+	d := make([]byte, n)
+	for i := range d {
+		d[i] = byte('a' + i%23)
+	}
+	if _, err = f.Write(d); err == nil {
+		_, err = f.Seek(0, io.SeekStart)
+	}
+	if err != nil {
+		f.Close()
+		os.Remove(f.Name())
+		return nil, err
+	}
+	h.osfiles = append(h.osfiles, f)
+	return f, nil
+}
+
+// osfilesClosed reports whether every real file was closed by the call, closes what was not, removes them all.
+// To be called once, when the call has settled.
+func (h *harness) osfilesClosed() (open []string) {
+	for _, f := range h.osfiles {
+		if err := f.Close(); err == nil || !errors.Is(err, os.ErrClosed) {
+			open = append(open, "temporary file")
+		}
+		os.Remove(f.Name())
+	}
+	h.osfiles = nil
+	if h.dir != nil {
+		if err := h.dir.Close(); (err == nil || !errors.Is(err, os.ErrClosed)) && h.paramErr == nil {
+			open = append(open, "directory accepted by SetFileParam") // refused = never handed over: the harness's to close
+		}
+		h.dir = nil
+	}
+	return open
 }
 
 // params builds the ClientRequestWriter for a payload kind.
@@ -450,11 +571,46 @@ func (h *harness) params(c *Case, timeout time.Duration, failWriter bool) rt.Cli
 			_ = req.SetBodyParam(plainReader{h.stream})
 		case "readcloser":
 			h.stream = newSource("stream", c.Len, failAtFor(c), c.Chunk)
+			h.stream.closeErr = c.CloseFails
 			_ = req.SetBodyParam(io.ReadCloser(h.stream))
+		case "fields":
+			// a multipart document made of plain form fields only: the streaming goroutine runs without any file
+			_ = req.SetFormParam("field", "v1", "v2")
+			_ = req.SetFormParam("other", strings.Repeat("x", c.Len))
 		case "file":
 			s := newSource("dir/f1.bin", c.Len, failAtFor(c), c.Chunk)
 			h.sources = append(h.sources, s)
 			_ = req.SetFileParam("file", s)
+		case "typed-file":
+			s := newSource("dir/t1.bin", c.Len, failAtFor(c), c.Chunk)
+			h.sources = append(h.sources, s)
+			_ = req.SetFileParam("file", typedSource{s})
+		case "osfile":
+			f, err := h.tempFile(c.Len)
+			if err != nil {
+				h.harnessErr = err
+				return errHarness
+			}
+			if err := req.SetFileParam("file", f); err != nil { // the temporary file vanished under the call
+				h.harnessErr = err
+				return err
+			}
+		case "file+dir":
+			// a file accepted for upload, then a directory handed to SetFileParam; the writer returns what
+			// SetFileParam answers, as generated parameter writers do
+			s := newSource("a.txt", c.Len, -1, 0)
+			h.sources = append(h.sources, s)
+			_ = req.SetFileParam("file", s)
+			d, err := os.Open(os.TempDir())
+			if err != nil {
+				h.harnessErr = err
+				return errHarness
+			}
+			h.dir = d
+			if err := req.SetFileParam("other", d); err != nil {
+				h.paramErr = err
+				return err
+			}
 		case "files+fields":
 			s1 := newSource("a.txt", c.Len, failAtFor(c), c.Chunk)
 			s2 := newSource("b.txt", 30, -1, 0)
@@ -495,6 +651,7 @@ func failAtFor(c *Case) int {
 
 func (h *harness) reader(c *Case) rt.ClientResponseReader {
 	return rt.ClientResponseReaderFunc(func(resp rt.ClientResponse, cons rt.Consumer) (interface{}, error) {
+		h.readerCalled = true
 		switch c.Reader {
 		case "none":
 			return "ignored", nil
@@ -502,9 +659,35 @@ func (h *harness) reader(c *Case) rt.ClientResponseReader {
 			buf := make([]byte, 8)
 			_, _ = resp.Body().Read(buf)
 			return "half", nil
+		case "half+close":
+			// generated readers commonly close the body themselves; Submit closes it again
+			buf := make([]byte, 8)
+			_, _ = resp.Body().Read(buf)
+			_ = resp.Body().Close()
+			return "half", nil
 		case "err":
 			return nil, errors.New("reader-refuses")
-		default:
+		case "copy-fail":
+			h.dest = &failWriter{limit: c.WriteFailAt}
+			n, err := io.Copy(h.dest, resp.Body())
+			return n, err
+		case "consume-fail":
+			// the byte-stream consumer into a plain io.Writer: what generated clients do for file responses
+			h.dest = &failWriter{limit: c.WriteFailAt}
+			if err := cons.Consume(resp.Body(), h.dest); err != nil {
+				return nil, err
+			}
+			return h.dest.n, nil
+		case "readfrom-fail":
+			h.dest = &failWriter{limit: c.WriteFailAt}
+			if err := cons.Consume(resp.Body(), readFromDest{h.dest}); err != nil {
+				return nil, err
+			}
+			return h.dest.n, nil
+		default: // all, all+close
+			if c.Reader == "all+close" {
+				defer resp.Body().Close()
+			}
 			b, err := io.ReadAll(resp.Body())
 			h.gotBody, h.readErr = b, err
 			if err != nil {
@@ -519,9 +702,23 @@ func (h *harness) reader(c *Case) rt.ClientResponseReader {
 	})
 }
 
+// readsAll: the reader kinds that read the body to its end themselves.
+func readsAll(rd string) bool { return rd == "all" || rd == "all+close" || rd == "" }
+
+// movesBody: the reader kinds that move the body into a destination which may refuse part-way.
+func movesBody(rd string) bool {
+	return rd == "copy-fail" || rd == "consume-fail" || rd == "readfrom-fail"
+}
+
+// usableCT: response media types for which the Runtime has a consumer.
+func usableCT(ct string) bool { return ct == "" || ct == "application/octet-stream" || ct == absentCT }
+
+// absentCT: the scripted answer carries no Content-Type header at all (the Runtime's default media type applies)
+const absentCT = "(absent)"
+
 func consumesFor(c *Case) []string {
 	switch c.Payload {
-	case "file", "files+fields", "files-2-fields":
+	case "file", "files+fields", "files-2-fields", "fields", "typed-file", "osfile", "file+dir":
 		return []string{"multipart/form-data"}
 	case "reader", "readcloser":
 		return []string{"application/octet-stream"}
@@ -532,8 +729,18 @@ func consumesFor(c *Case) []string {
 func checkReleased(m *mon.M, c *Case, h *harness, before map[string]string, sigPrefix string) bool {
 	ok := true
 	// goroutines first: the settle loop also gives a finishing upload goroutine the time to run its deferred closes
-	lk := leaked(before)
-	if len(lk) > 0 {
+	lk, verdict := settle(before, h.quiescent)
+	switch verdict {
+	case stillActive:
+		// not one wall-clock bound makes a running goroutine a leaked one
+		m.Class("settle-inconclusive:goroutine-still-active-at-the-hard-bound")
+		h.osfilesClosed()
+		return false
+	case notWaitedOut:
+		m.Class("settle-not-waited-out:this-worker-already-confirmed-leaks-the-long-way")
+		h.osfilesClosed()
+		return false
+	case leakedParked:
 		var sb strings.Builder
 		for _, g := range lk {
 			sb.WriteString(g)
@@ -542,7 +749,11 @@ func checkReleased(m *mon.M, c *Case, h *harness, before map[string]string, sigP
 				break
 			}
 		}
-		m.Violate(sigPrefix+"/goroutine-left-behind", fmt.Sprintf("%d goroutine(s) with client frames remain after the call; case %s\n%s", len(lk), c.key(), sb.String()), c)
+		how := "they are parked and no party is left that could wake them"
+		if !h.quiescent {
+			how = fmt.Sprintf("still parked, unchanged, after %s", settleBound)
+		}
+		m.Violate(sigPrefix+"/goroutine-left-behind", fmt.Sprintf("%d goroutine(s) with client frames remain after the call (%s); case %s\n%s", len(lk), how, c.key(), sb.String()), c)
 		ok = false
 	}
 	for _, s := range h.sources {
@@ -552,13 +763,32 @@ func checkReleased(m *mon.M, c *Case, h *harness, before map[string]string, sigP
 			break
 		}
 	}
+	if open := h.osfilesClosed(); len(open) > 0 && ok {
+		m.Violate(sigPrefix+"/upload-source-not-closed", fmt.Sprintf("%s handed over for upload was never closed; case %s", open[0], c.key()), c)
+		ok = false
+	}
 	return ok
+}
+
+// harnessFailed files a case whose scaffolding failed as inconclusive.
+func harnessFailed(m *mon.M, h *harness) bool {
+	if h.harnessErr == nil {
+		return false
+	}
+	m.Class("harness-scaffolding-failed-inconclusive")
+	h.osfilesClosed()
+	return true
 }
 
 // ---------- case kinds ----------
 
 func runCase(m *mon.M, c *Case) {
 	m.Eval(1)
+	t0 := time.Now()
+	defer func() { // where the wall clock of the run goes, by kind (evidence only)
+		m.Note("wall_us_kind_"+c.Kind, int64(time.Since(t0)/time.Microsecond))
+		m.Note("cases_kind_"+c.Kind, 1)
+	}()
 	if c.Perturb > 0 && c.Kind != "cancel" && c.Kind != "drain" {
 		var mu sync.Mutex
 		state := uint64(c.Perturb)*2654435761 + 12345
@@ -595,7 +825,8 @@ func runCase(m *mon.M, c *Case) {
 }
 
 func runPresend(m *mon.M, c *Case) {
-	h := &harness{}
+	h := &harness{quiescent: !c.Debug}
+	defer h.osfilesClosed()
 	before := census()
 	srt := &scriptedRT{mode: "ok", body: &respBody{data: []byte(`{"ok":1}`)}}
 	base := "/api"
@@ -649,7 +880,26 @@ func runPresend(m *mon.M, c *Case) {
 		m.Violate("presend/did-not-return/"+feat, "Submit did not return; case "+c.key()+"\n"+o.dump, c)
 		return
 	}
+	if harnessFailed(m, h) {
+		return
+	}
 	m.NT(c.key())
+	if c.Payload == "readcloser" && h.stream != nil {
+		// a stream handed over as the BODY is not a file parameter: the statement's "every file handed over for
+		// upload has been closed" is not applied to it; what the tree does is counted
+		if atomic.LoadInt32(&h.stream.closed) == 0 {
+			m.Class("probe:readcloser-payload-left-open-after-presend-error")
+		} else {
+			m.Class("probe:readcloser-payload-closed-after-presend-error")
+		}
+	}
+	if c.Fault == "file-param-is-directory" {
+		if h.paramErr != nil {
+			m.Class("probe:directory-refused-by-SetFileParam")
+		} else {
+			m.Class("probe:directory-accepted-by-SetFileParam") // then it fails as an upload source at byte 0: an error all the same
+		}
+	}
 	if o.err == nil {
 		m.Violate("presend/no-error/"+feat, "Submit returned nil error although request construction failed; case "+c.key(), c)
 		return
@@ -658,7 +908,7 @@ func runPresend(m *mon.M, c *Case) {
 		m.Violate("presend/panic/"+feat, o.err.Error(), c)
 		return
 	}
-	if atomic.LoadInt32(&srt.calls) != 0 {
+	if atomic.LoadInt32(&srt.calls) != 0 && !(c.Fault == "file-param-is-directory" && h.paramErr == nil) {
 		m.Violate("presend/sent-anyway/"+feat, "the transport was invoked although request construction failed", c)
 		return
 	}
@@ -668,7 +918,8 @@ func runPresend(m *mon.M, c *Case) {
 }
 
 func runUpload(m *mon.M, c *Case) {
-	h := &harness{}
+	h := &harness{quiescent: !c.Debug}
+	defer h.osfilesClosed()
 	before := census()
 	srt := &scriptedRT{mode: "ok", body: &respBody{data: []byte(`{"ok":1}`)}}
 	r := client.New("example.invalid", "/api", []string{"http"})
@@ -692,6 +943,9 @@ func runUpload(m *mon.M, c *Case) {
 		m.Violate("upload/did-not-return/"+feat, "Submit did not return; case "+c.key()+"\n"+o.dump, c)
 		return
 	}
+	if harnessFailed(m, h) {
+		return
+	}
 	faulty := c.Offset >= 0 && c.Offset < c.Len
 	if c.Offset == c.Len && c.Offset >= 0 {
 		faulty = true // error instead of EOF at the very end
@@ -705,7 +959,11 @@ func runUpload(m *mon.M, c *Case) {
 		m.Violate("upload/failing-source-reported-as-success/"+feat, fmt.Sprintf("source fails at byte %d of %d but Submit returned (%v, nil); transport consumed %d bytes (body error: %v); case %s", c.Offset, c.Len, o.res, srt.consumed, srt.bodyErr, c.key()), c)
 		return
 	}
-	if !faulty && o.err != nil {
+	if !faulty && o.err != nil && c.CloseFails && c.Payload == "readcloser" {
+		// every byte was delivered and only Close of the stream reported an error: whether that fails the call is
+		// outside the statement (return, goroutines and no panic are judged as everywhere)
+		m.Class("stream-close-error-outcome-not-judged")
+	} else if !faulty && o.err != nil {
 		m.Violate("upload/healthy-source-failed/"+feat, fmt.Sprintf("no fault scripted but Submit failed: %v; case %s", o.err, c.key()), c)
 		return
 	}
@@ -715,7 +973,8 @@ func runUpload(m *mon.M, c *Case) {
 }
 
 func runRoundtrip(m *mon.M, c *Case) {
-	h := &harness{}
+	h := &harness{quiescent: !c.Debug}
+	defer h.osfilesClosed()
 	before := census()
 	rl := c.Len
 	if c.RespLen > 0 {
@@ -723,14 +982,20 @@ func runRoundtrip(m *mon.M, c *Case) {
 	}
 	body := &respBody{data: []byte(`{"k":"` + strings.Repeat("r", rl) + `"}`), eofWith: c.EOFWith, failAt: c.RespFailAt}
 	srt := &scriptedRT{mode: c.Fault, body: body, ct: c.RespCT, status: c.RespStatus, knownLen: c.RespKnownLen}
-	r := newRuntime(c, "example.invalid", srt)
-	debugOn(r, c)
 	op := &rt.ClientOperation{ID: "x", Method: "POST", PathPattern: "/things", ConsumesMediaTypes: consumesFor(c), ProducesMediaTypes: []string{"application/json"},
 		Params: h.params(c, baseDeadline, false), Reader: h.reader(c), Context: context.Background()}
+	r := wire(m, c, "example.invalid", srt, op)
+	debugOn(r, c)
 	o := submitWatched(r, op, 200*baseDeadline)
 	feat := c.Fault + "/" + c.Payload + "/reader-" + c.Reader
+	if c.OpClient {
+		feat += "/operation-client"
+	}
 	if !o.returned {
 		m.Violate("roundtrip/did-not-return/"+feat, "Submit did not return; case "+c.key()+"\n"+o.dump, c)
+		return
+	}
+	if harnessFailed(m, h) {
 		return
 	}
 	m.NT(c.key())
@@ -744,28 +1009,47 @@ func runRoundtrip(m *mon.M, c *Case) {
 			return
 		}
 	} else {
-		if c.RespCT != "" {
+		usable := usableCT(c.RespCT)
+		if !usable {
 			// the answer's Content-Type cannot be parsed, or nothing is registered for it: the exchange ends with
 			// an error before the reader runs -- and the body still has to be closed (drained under reuse)
 			feat += "/unusable-response-content-type"
+			if _, _, perr := mime.ParseMediaType(c.RespCT); perr != nil {
+				m.Class("response-content-type-does-not-parse")
+			} else {
+				m.Class("response-content-type-has-no-consumer")
+			}
 			if o.err == nil {
 				m.Violate("roundtrip/unusable-content-type-accepted/"+feat, fmt.Sprintf("response Content-Type %q but Submit returned nil error", c.RespCT), c)
 				return
 			}
 		}
-		if c.RespCT == "" && c.Reader == "err" && o.err == nil {
+		destRefused := movesBody(c.Reader) && h.dest != nil && h.dest.failed
+		if movesBody(c.Reader) && usable {
+			if destRefused {
+				m.Class("destination-refused-part-way")
+			} else {
+				m.Class("destination-took-everything")
+			}
+		}
+		if usable && (c.Reader == "err" || destRefused) && o.err == nil {
 			m.Violate("roundtrip/reader-error-swallowed/"+feat, "the response reader failed but Submit returned nil error", c)
 			return
 		}
-		if c.RespFailAt > 0 && c.RespCT == "" && c.Reader == "all" && o.err == nil {
+		if c.RespFailAt > 0 && usable && readsAll(c.Reader) && o.err == nil {
 			m.Violate("roundtrip/response-body-error-swallowed/"+feat, fmt.Sprintf("the response body failed after %d of %d bytes but Submit returned nil error", c.RespFailAt, len(body.data)), c)
 			return
 		}
-		if c.RespFailAt == 0 && c.RespCT == "" && c.Reader != "err" && o.err != nil {
+		if c.RespFailAt > 0 && c.RespFailAt < len(body.data) && usable && readsAll(c.Reader) && h.readerCalled && h.readErr == nil && len(h.gotBody) < len(body.data) {
+			// judged on what the reader was shown, not on what the harness's own JSON parse makes of the cut text
+			m.Violate("roundtrip/response-body-error-hidden-from-reader/"+feat, fmt.Sprintf("the response body failed after %d of %d bytes; the reader was shown %d bytes and a clean end of stream (Submit: %v)", c.RespFailAt, len(body.data), len(h.gotBody), o.err), c)
+			return
+		}
+		if c.RespFailAt == 0 && usable && c.Reader != "err" && !destRefused && o.err != nil {
 			m.Violate("roundtrip/healthy-exchange-failed/"+feat, fmt.Sprintf("Submit failed: %v; case %s", o.err, c.key()), c)
 			return
 		}
-		if c.RespFailAt == 0 && c.RespCT == "" && c.Reader == "all" && string(h.gotBody) != string(body.data) {
+		if c.RespFailAt == 0 && usable && readsAll(c.Reader) && string(h.gotBody) != string(body.data) {
 			m.Violate("roundtrip/body-altered/"+feat, fmt.Sprintf("reader saw %q, sent %q", h.gotBody, body.data), c)
 			return
 		}
@@ -793,10 +1077,48 @@ type faultServer struct {
 	ln      net.Listener
 	release chan struct{}
 	sentCh  chan int
+	mu      sync.Mutex
+	conns   []net.Conn
+	winding bool
+	wg      sync.WaitGroup // the accept loop and every connection handler
+}
+
+// windUp ends the server once the call under observation has returned: the fault is lifted, nothing more is
+// accepted, a handler still waiting for a request (a connection the client opened and never used) is woken, and
+// every handler is waited for. Afterwards sentCh holds what the handlers reported, and nothing else will come: the
+// question "did the fault point deliver?" is answered by events, not by waiting some time for an answer.
+func (fs *faultServer) windUp(release func()) (sent int) {
+	release()
+	fs.ln.Close()
+	fs.mu.Lock()
+	fs.winding = true
+	for _, c := range fs.conns {
+		_ = c.SetReadDeadline(time.Now())
+	}
+	fs.mu.Unlock()
+	fs.wg.Wait()
+	sent = -2
+	for {
+		select {
+		case n := <-fs.sentCh:
+			if n > sent {
+				sent = n
+			}
+		default:
+			return sent
+		}
+	}
+}
+
+func (fs *faultServer) report(n int) {
+	select {
+	case fs.sentCh <- n:
+	default:
+	}
 }
 
 func cannedResponse(chunked bool) []byte {
-	body := `{"k":"0123456789abcdefghij"}`
+	body := cannedBody
 	if chunked {
 		half := len(body) / 2
 		return []byte(fmt.Sprintf("HTTP/1.1 200 OK\r\nContent-Type: application/json\r\nTransfer-Encoding: chunked\r\n\r\n%x\r\n%s\r\n%x\r\n%s\r\n0\r\n\r\n", half, body[:half], len(body)-half, body[half:]))
@@ -818,19 +1140,38 @@ func startFaultServer(action string, offset int, chunked bool) (*faultServer, er
 	if err != nil {
 		return nil, err
 	}
-	fs := &faultServer{ln: ln, release: make(chan struct{}), sentCh: make(chan int, 4)}
+	fs := &faultServer{ln: ln, release: make(chan struct{}), sentCh: make(chan int, 64)}
 	resp := cannedResponse(chunked)
+	fs.wg.Add(1)
 	go func() {
+		defer fs.wg.Done()
 		for {
 			conn, err := ln.Accept()
 			if err != nil {
 				return
 			}
+			fs.mu.Lock()
+			fs.conns = append(fs.conns, conn)
+			if fs.winding {
+				_ = conn.SetReadDeadline(time.Now())
+			}
+			fs.wg.Add(1)
+			fs.mu.Unlock()
 			go func(conn net.Conn) {
+				defer fs.wg.Done()
 				defer conn.Close()
+				if action == "stall-unread" {
+					// the server accepts and never reads: the upload blocks once the socket buffers are full
+					if tc, ok := conn.(*net.TCPConn); ok {
+						_ = tc.SetReadBuffer(4096)
+					}
+					fs.report(0)
+					<-fs.release
+					return
+				}
 				br := bufio.NewReader(conn)
 				if err := readRequest(br); err != nil {
-					fs.sentCh <- -1
+					fs.report(-1)
 					return
 				}
 				n := offset
@@ -838,7 +1179,7 @@ func startFaultServer(action string, offset int, chunked bool) (*faultServer, er
 					n = len(resp)
 				}
 				_, _ = conn.Write(resp[:n])
-				fs.sentCh <- n
+				fs.report(n)
 				switch action {
 				case "close":
 				case "reset":
@@ -853,6 +1194,19 @@ func startFaultServer(action string, offset int, chunked bool) (*faultServer, er
 	}()
 	return fs, nil
 }
+
+// smallWriteBuffer: a dialer whose connections have a small send buffer, so that an upload the server does not read
+// blocks after a few kilobytes instead of after the megabytes the kernel would buffer.
+func smallWriteBuffer(ctx context.Context, network, addr string) (net.Conn, error) {
+	var d net.Dialer
+	conn, err := d.DialContext(ctx, network, addr)
+	if tc, ok := conn.(*net.TCPConn); ok && err == nil {
+		_ = tc.SetWriteBuffer(8192)
+	}
+	return conn, err
+}
+
+const cannedBody = `{"k":"0123456789abcdefghij"}`
 
 func runServer(m *mon.M, c *Case) {
 	fs, err := startFaultServer(c.Fault, c.Offset, c.Chunked)
@@ -869,34 +1223,62 @@ func runServer(m *mon.M, c *Case) {
 	}
 	defer func() { rel(); fs.ln.Close() }()
 	h := &harness{}
+	defer h.osfilesClosed()
+	if c.Len >= 1<<20 {
+		_ = pattern(c.Len) // built before the deadline clock of the case starts
+	}
 	before := census()
 	timeout, ctx, cancel := deadlines(c)
 	defer cancel()
 	tr := &http.Transport{DisableKeepAlives: !c.Reuse}
+	if c.Fault == "stall-unread" {
+		tr.DialContext = smallWriteBuffer
+	}
 	defer tr.CloseIdleConnections()
-	r := newRuntime(c, fs.ln.Addr().String(), tr)
 	c2 := *c
 	if c2.Reader == "" {
 		c2.Reader = "all"
 	}
 	op := &rt.ClientOperation{ID: "x", Method: "POST", PathPattern: "/things", ConsumesMediaTypes: consumesFor(c), ProducesMediaTypes: []string{"application/json"},
 		Params: h.params(c, timeout, false), Reader: h.reader(&c2), Context: ctx}
+	r := wire(m, c, fs.ln.Addr().String(), tr, op)
 	o := submitWatched(r, op, 200*baseDeadline)
 	full := len(cannedResponse(c.Chunked))
-	complete := c.Offset >= full
+	complete := c.Offset >= full && c.Fault != "stall-unread"
 	feat := c.Fault + "/" + c.Deadline
+	if c.OpClient {
+		feat += "/operation-client"
+	}
+	if c.CtxVia != "" {
+		feat += "/context-from-" + c.CtxVia
+	}
 	if !o.returned {
 		m.Violate("server/did-not-return-while-fault-held/"+feat, fmt.Sprintf("Submit had not returned after 200x the effective deadline; case %s\n%s", c.key(), o.dump), c)
 		rel()
 		return
 	}
-	sent := -2
-	select {
-	case sent = <-fs.sentCh:
-	case <-time.After(2 * time.Second):
+	if harnessFailed(m, h) {
+		return
 	}
+	// the call has returned while the fault was held: the verdict on termination is in; the server is wound up and
+	// says whether the fault point was reached
+	sent := fs.windUp(rel)
 	if sent >= 0 {
-		m.NT(c.key())
+		if c.Fault == "stall-unread" {
+			// confirmed when the upload was still under way when the call returned
+			src := h.stream
+			if len(h.sources) > 0 {
+				src = h.sources[0]
+			}
+			if src != nil && src.consumed() < c.Len {
+				m.NT(c.key())
+				m.Class("upload-blocked-on-unread-connection")
+			} else {
+				m.Class("fault-not-reached")
+			}
+		} else {
+			m.NT(c.key())
+		}
 	} else {
 		m.Class("fault-not-reached")
 	}
@@ -904,7 +1286,7 @@ func runServer(m *mon.M, c *Case) {
 		m.Violate("server/panic/"+feat, o.err.Error(), c)
 		return
 	}
-	if c2.Reader != "all" {
+	if !readsAll(c2.Reader) {
 		// a reader that stops early: whether the call fails depends on where the fault lies; what is owed is
 		// the return (above), and the release of everything once the fault is lifted
 		rel()
@@ -917,10 +1299,21 @@ func runServer(m *mon.M, c *Case) {
 		m.Violate("server/incomplete-response-reported-as-success/"+feat, fmt.Sprintf("the server delivered %d of %d response bytes then %s, but Submit returned (%v, nil); reader saw %q", sent, full, c.Fault, o.res, h.gotBody), c)
 		return
 	}
-	if complete && o.err != nil && isDeadline(o.err) {
+	if !complete && h.readerCalled && h.readErr == nil && len(h.gotBody) < len(cannedBody) {
+		// the cut was turned into a clean end of stream before the reader: judged on what the reader was shown, not on
+		// what the harness's own JSON parse makes of the cut text
+		m.Violate("server/truncation-hidden-from-reader/"+feat, fmt.Sprintf("the server delivered %d of %d response bytes then %s; the reader was shown %d of %d body bytes and a clean end of stream (Submit: %v)", sent, full, c.Fault, len(h.gotBody), len(cannedBody), o.err), c)
+		return
+	}
+	switch {
+	case complete && o.err != nil && isDeadline(o.err):
 		// the complete response raced the (short) deadline on a loaded machine: nothing can be concluded
 		m.Class("complete-response-lost-to-deadline-inconclusive")
-	} else if complete && o.err != nil && c.Fault != "reset" {
+	case complete && o.err != nil && sent < 0:
+		// the exchange failed before the server delivered anything (no connection, no ephemeral port, ...):
+		// a fault of the machine, not the scripted one
+		m.Class("exchange-failed-before-the-fault-point-inconclusive")
+	case complete && o.err != nil && c.Fault != "reset":
 		m.Violate("server/complete-response-failed/"+feat, fmt.Sprintf("the complete response was delivered but Submit failed: %v; case %s", o.err, c.key()), c)
 		return
 	}
@@ -944,6 +1337,15 @@ func isDeadline(err error) bool {
 
 // ---------- cancellation at hook points ----------
 
+// hookBeforeDo: the hook points that lie before client.Do: a cancellation placed there precedes the exchange.
+func hookBeforeDo(hp string) bool {
+	switch hp {
+	case "cl.submit.built", "cl.submit.clientReady", "cl.submit.beforeDo", "cl.getbody.copy":
+		return true
+	}
+	return false
+}
+
 func runCancel(m *mon.M, c *Case) {
 	ln, err := net.Listen("tcp", "127.0.0.1:0")
 	if err != nil {
@@ -951,14 +1353,29 @@ func runCancel(m *mon.M, c *Case) {
 		return
 	}
 	respBytes := []byte(`{"k":"` + strings.Repeat("z", 2000) + `"}`)
+	hold := make(chan struct{})
+	var holdOnce sync.Once
+	lift := func() { holdOnce.Do(func() { close(hold) }) }
 	srv := &http.Server{Handler: http.HandlerFunc(func(w http.ResponseWriter, r *http.Request) {
 		_, _ = io.Copy(io.Discard, r.Body)
 		w.Header().Set("Content-Type", "application/json")
+		if c.ServerHolds {
+			// status line, headers and half of the body, then nothing before the verdict on the call's return is in
+			_, _ = w.Write(respBytes[:len(respBytes)/2])
+			if f, ok := w.(http.Flusher); ok {
+				f.Flush()
+			}
+			<-hold
+			_, _ = w.Write(respBytes[len(respBytes)/2:])
+			return
+		}
 		_, _ = w.Write(respBytes)
 	})}
 	go func() { _ = srv.Serve(ln) }()
 	defer srv.Close()
+	defer lift()
 	h := &harness{}
+	defer h.osfilesClosed()
 	before := census()
 	ctx, cancel := context.WithCancel(context.Background())
 	defer cancel()
@@ -969,27 +1386,41 @@ func runCancel(m *mon.M, c *Case) {
 		}
 	})
 	defer verifhook.Set(nil)
-	r := client.New(ln.Addr().String(), "/api", []string{"http"})
 	tr := &http.Transport{DisableKeepAlives: !c.Reuse}
 	defer tr.CloseIdleConnections()
-	r.Transport = tr
-	if c.Reuse {
-		r.EnableConnectionReuse()
-	}
 	c2 := *c
 	c2.Reader = "all"
 	var auth rt.ClientAuthInfoWriter
 	if c.AuthGetBody {
 		auth = rt.ClientAuthInfoWriterFunc(func(r rt.ClientRequest, _ strfmt.Registry) error { _ = r.GetBody(); return nil })
 	}
+	timeout := 100 * baseDeadline
+	if c.ServerHolds {
+		timeout = 0 // no timeout of the call's own: only the cancellation can end it while the server holds
+	}
 	op := &rt.ClientOperation{ID: "x", Method: "POST", PathPattern: "/things", ConsumesMediaTypes: consumesFor(c), ProducesMediaTypes: []string{"application/json"},
-		Params: h.params(c, 100*baseDeadline, false), Reader: h.reader(&c2), AuthInfo: auth, Context: ctx}
+		Params: h.params(c, timeout, false), Reader: h.reader(&c2), AuthInfo: auth, Context: ctx}
+	r := wire(m, c, ln.Addr().String(), tr, op)
 	o := submitWatched(r, op, 200*baseDeadline)
 	feat := c.HookPoint + "/" + c.Payload
+	if c.ServerHolds {
+		feat += "/server-holds"
+	}
+	if c.OpClient {
+		feat += "/operation-client"
+	}
+	if c.CtxVia != "" {
+		feat += "/context-from-" + c.CtxVia
+	}
 	if !o.returned {
+		if c.ServerHolds && atomic.LoadInt32(&fired) == 0 {
+			m.Class("hook-not-reached") // nothing was cancelled: the call is rightly waiting for the server
+			return
+		}
 		m.Violate("cancel/did-not-return/"+feat, "Submit did not return after cancellation; case "+c.key()+"\n"+o.dump, c)
 		return
 	}
+	lift()
 	if atomic.LoadInt32(&fired) == 1 {
 		m.NT(c.key())
 	} else {
@@ -1003,10 +1434,22 @@ func runCancel(m *mon.M, c *Case) {
 		m.Violate("cancel/incomplete-response-reported-as-success/"+feat, fmt.Sprintf("Submit returned nil error but the reader saw %d of %d body bytes", len(h.gotBody), len(respBytes)), c)
 		return
 	}
+	if c.ServerHolds && o.err == nil {
+		// the server was still holding its answer when Submit returned: no complete response can have been obtained
+		m.Violate("cancel/success-without-a-response/"+feat, "Submit returned nil error while the server was still holding its answer", c)
+		return
+	}
 	if checkReleased(m, c, h, before, "cancel/"+feat) {
-		if o.err == nil {
+		switch {
+		case o.err == nil && hookBeforeDo(c.HookPoint) && atomic.LoadInt32(&fired) == 1:
+			// the complete response was obtained although the context was cancelled before the exchange began: the
+			// statement asks for an error "unless the complete response was obtained", so this is counted, not judged;
+			// the server-holds variant of the same placement is the one that judges a dropped cancellation
+			m.Class("cancel-before-do-yet-complete")
 			m.Class("cancel-too-late-complete")
-		} else {
+		case o.err == nil:
+			m.Class("cancel-too-late-complete")
+		default:
 			m.Class("cancel-surfaced")
 		}
 	}
@@ -1015,6 +1458,18 @@ func runCancel(m *mon.M, c *Case) {
 // ---------- the connection-reuse body wrapper alone ----------
 
 type onceRT struct{ body *respBody }
+
+// captureWriter records what a destination was offered and accepted.
+type captureWriter struct {
+	w   io.Writer
+	got []byte
+}
+
+func (c *captureWriter) Write(p []byte) (int, error) {
+	n, err := c.w.Write(p)
+	c.got = append(c.got, p[:n]...)
+	return n, err
+}
 
 func (o onceRT) RoundTrip(r *http.Request) (*http.Response, error) {
 	return &http.Response{StatusCode: 200, Body: o.body, Header: http.Header{}, Request: r}, nil
@@ -1041,6 +1496,17 @@ func runDrain(m *mon.M, c *Case) {
 				break
 			}
 		}
+		if c.CopyFailAt > 0 && !sawEOF {
+			// the rest is moved with io.Copy into a destination that refuses part-way; a copy that comes back
+			// without an error has seen the end of the stream, one that failed on the destination has not
+			fw := &failWriter{limit: c.CopyFailAt}
+			cw := &captureWriter{w: fw}
+			_, _ = io.Copy(cw, resp.Body)
+			got = append(got, cw.got...)
+			if body.eofSeen() { // observed on the instrumented body itself, before Close
+				sawEOF = true
+			}
+		}
 		_ = resp.Body.Close()
 	})
 	m.NT(c.key())
@@ -1049,6 +1515,9 @@ func runDrain(m *mon.M, c *Case) {
 		if s == 0 {
 			zero = "zero-length-read"
 		}
+	}
+	if c.CopyFailAt > 0 {
+		zero += "/then-copy-into-failing-destination"
 	}
 	if pv != nil {
 		m.Violate("drain/panic/"+zero, fmt.Sprintf("%v\n%s", pv, st), c)
@@ -1074,7 +1543,8 @@ func runDrain(m *mon.M, c *Case) {
 func enumerate(m *mon.M) []*Case {
 	var cs []*Case
 	quick := m.Quick()
-	payloads := []string{"file", "files+fields", "json", "reader", "readcloser", "none"}
+	// "fields": a multipart document of plain form fields only (the streaming goroutine runs without any file)
+	payloads := []string{"file", "files+fields", "json", "reader", "readcloser", "none", "fields"}
 	for _, f := range []string{"writer-error", "auth-error", "auth-error-after-getbody", "bad-base-path", "bad-path-pattern", "bad-method"} {
 		for _, p := range payloads {
 			for _, reuse := range []bool{false, true} {
@@ -1090,6 +1560,15 @@ func enumerate(m *mon.M) []*Case {
 	}
 	for _, p := range payloads {
 		cs = append(cs, &Case{Kind: "presend", Fault: "unregistered-media-type", Payload: p, Len: 700, Reader: "all"})
+	}
+	// a directory handed to SetFileParam after a file was accepted; a real temporary file; a source that declares its type
+	for _, reuse := range []bool{false, true} {
+		cs = append(cs, &Case{Kind: "presend", Fault: "file-param-is-directory", Payload: "file+dir", Len: 700, Reuse: reuse, Reader: "all"})
+	}
+	for _, f := range []string{"writer-error", "auth-error", "auth-error-after-getbody", "bad-method"} {
+		for _, p := range []string{"osfile", "typed-file"} {
+			cs = append(cs, &Case{Kind: "presend", Fault: f, Payload: p, Len: 700, Reader: "all"})
+		}
 	}
 	// upload-source faults at every offset
 	maxLen := 64
@@ -1124,6 +1603,34 @@ func enumerate(m *mon.M) []*Case {
 			cs = append(cs, &Case{Kind: "upload", Payload: p, Len: l, Offset: l / 2, Fault: "with-getbody-auth", Reader: "all"})
 		}
 	}
+	// a source with a declared media type is copied without the 512-byte sniff: the sweep enters io.Copy at offset 0
+	for _, l := range []int{0, 1, 7, 600} {
+		offs := map[int]bool{-1: true, 0: true, 1: true, l / 2: true, l - 1: true, l: true}
+		for off := -1; off <= l; off++ {
+			if !offs[off] && quick {
+				continue
+			}
+			if !offs[off] && off%5 != 0 {
+				continue
+			}
+			for _, chunk := range []int{0, 1} {
+				cs = append(cs, &Case{Kind: "upload", Payload: "typed-file", Len: l, Offset: off, Chunk: chunk, Reader: "all"})
+			}
+		}
+	}
+	// a real temporary file (SetFileParam looks at *os.File), healthy: it must have been closed
+	for _, l := range []int{0, 7, 600, 70000} {
+		cs = append(cs, &Case{Kind: "upload", Payload: "osfile", Len: l, Offset: -1, Reader: "all"})
+		cs = append(cs, &Case{Kind: "upload", Payload: "osfile", Len: l, Offset: -1, Reader: "all", Fault: "with-getbody-auth"})
+	}
+	// a stream payload whose Close reports an error: closed by the transport, or by GetBody's copy for an auth writer
+	for _, l := range []int{7, 600} {
+		for _, off := range []int{-1, l / 2} {
+			for _, f := range []string{"", "with-getbody-auth"} {
+				cs = append(cs, &Case{Kind: "upload", Payload: "readcloser", Len: l, Offset: off, Reader: "all", Fault: f, CloseFails: true})
+			}
+		}
+	}
 	// faults in the second source / in another field; sources whose Close reports an error
 	for _, p := range []string{"files+fields", "files-2-fields"} {
 		for _, fs := range []int{0, 1} {
@@ -1144,7 +1651,14 @@ func enumerate(m *mon.M) []*Case {
 	// answers whose Content-Type is unusable, and bodies far larger than any buffer, left unread
 	for _, p := range []string{"json", "file"} {
 		for _, reuse := range []bool{false, true} {
-			for _, ct := range []string{"%%%", "application/x-nobody-registered", ""} {
+			// "a b/c", "/json", "text/plain; charset": mime.ParseMediaType refuses them (the exchange ends in Submit's
+			// "parse content type" return); "%%%" parses as a lone token and "application/x-nobody-registered" is
+			// well-formed: both end in the "no consumer" return
+			cts := []string{"%%%", "application/x-nobody-registered", "", "a b/c", "/json"}
+			if !quick {
+				cts = append(cts, "text/plain; charset")
+			}
+			for _, ct := range cts {
 				for _, rd := range []string{"none", "half", "all"} {
 					for _, rl := range []int{300, 300000, 1 << 20} {
 						if ct == "" && rl == 300 {
@@ -1157,6 +1671,59 @@ func enumerate(m *mon.M) []*Case {
 					}
 				}
 			}
+		}
+	}
+	// a reader that moves the body into a destination which refuses part-way (io.Copy, the byte-stream consumer into
+	// an io.Writer, a destination with a ReadFrom of its own): the reader's error surfaces, the body is closed and,
+	// under reuse, drained -- the failed copy has not seen its end
+	for _, rd := range []string{"copy-fail", "consume-fail", "readfrom-fail"} {
+		for _, reuse := range []bool{false, true} {
+			for _, rl := range []int{300, 300000} {
+				for _, wf := range []int{0, 100, 40000, 1 << 30} {
+					cs = append(cs, &Case{Kind: "roundtrip", Fault: "ok", Payload: "json", Len: 300, RespLen: rl, RespCT: "application/octet-stream", Reuse: reuse, Reader: rd, WriteFailAt: wf})
+					if reuse && rl == 300000 && wf == 40000 {
+						for _, via := range []string{"with-client", "after-first-call", "with-client-nil-transport"} {
+							cs = append(cs, &Case{Kind: "roundtrip", Fault: "ok", Payload: "file", Len: 300, RespLen: rl, RespCT: "application/octet-stream", Reuse: reuse, ReuseVia: via, Reader: rd, WriteFailAt: wf})
+						}
+						cs = append(cs, &Case{Kind: "roundtrip", Fault: "ok", Payload: "file", Len: 300, RespLen: rl, RespCT: "application/octet-stream", Reuse: reuse, OpClient: true, Reader: rd, WriteFailAt: wf})
+						cs = append(cs, &Case{Kind: "roundtrip", Fault: "ok", Payload: "json", Len: 300, RespLen: rl, RespCT: "application/octet-stream", Reuse: reuse, Reader: rd, WriteFailAt: wf, RespKnownLen: true, EOFWith: true})
+					}
+				}
+			}
+		}
+	}
+	// an answer without any Content-Type; a binary answer with Runtime.Debug on; no context anywhere
+	for _, reuse := range []bool{false, true} {
+		for _, rd := range []string{"all", "half", "none"} {
+			cs = append(cs, &Case{Kind: "roundtrip", Fault: "ok", Payload: "json", Len: 300, RespLen: 300000, RespCT: absentCT, Reuse: reuse, Reader: rd})
+			cs = append(cs, &Case{Kind: "roundtrip", Fault: "ok", Payload: "file", Len: 300, RespLen: 300000, Reuse: reuse, Reader: rd, CtxVia: "none"})
+		}
+		cs = append(cs, &Case{Kind: "roundtrip", Fault: "ok", Payload: "json", Len: 300, RespLen: 300000, RespCT: "application/octet-stream", Reuse: reuse, Reader: "copy-fail", WriteFailAt: 1000, Debug: true})
+		for _, off := range []int{0, 30, 80} {
+			cs = append(cs, &Case{Kind: "server", Fault: "stall", Offset: off, Reuse: reuse, Deadline: "request", Payload: "file", Len: 40, Reader: "all", CtxVia: "none"})
+		}
+	}
+	// a JSON answer copied by the reader itself
+	for _, reuse := range []bool{false, true} {
+		for _, wf := range []int{1, 1 << 30} {
+			cs = append(cs, &Case{Kind: "roundtrip", Fault: "ok", Payload: "json", Len: 300, RespLen: 300000, Reuse: reuse, Reader: "copy-fail", WriteFailAt: wf})
+		}
+	}
+	// readers that close the body themselves (Submit closes it again), and the operation's own client
+	for _, p := range []string{"json", "file"} {
+		for _, reuse := range []bool{false, true} {
+			for _, ew := range []bool{false, true} {
+				for _, rd := range []string{"all+close", "half+close"} {
+					cs = append(cs, &Case{Kind: "roundtrip", Fault: "ok", Payload: p, Len: 300, RespLen: 300000, Reuse: reuse, Reader: rd, EOFWith: ew})
+				}
+			}
+			for _, rd := range []string{"all", "half", "none", "err"} {
+				cs = append(cs, &Case{Kind: "roundtrip", Fault: "ok", Payload: p, Len: 300, RespLen: 300000, Reuse: reuse, Reader: rd, OpClient: true})
+			}
+			for _, f := range []string{"err-before", "err-mid"} {
+				cs = append(cs, &Case{Kind: "roundtrip", Fault: f, Payload: p, Len: 300, Reuse: reuse, Reader: "all", OpClient: true})
+			}
+			cs = append(cs, &Case{Kind: "roundtrip", Fault: "ok", Payload: p, Len: 300, RespLen: 300000, RespFailAt: 100000, Reuse: reuse, Reader: "all+close"})
 		}
 	}
 	// answers of other statuses, with a declared length, and bodies that fail while being read
@@ -1185,7 +1752,7 @@ func enumerate(m *mon.M) []*Case {
 		cs = append(cs, &Case{Kind: "roundtrip", Fault: "ok", Payload: p, Len: 300, Reuse: true, Reader: "half", Debug: true})
 		cs = append(cs, &Case{Kind: "roundtrip", Fault: "ok", Payload: p, Len: 300, Reader: "all", Debug: true})
 		cs = append(cs, &Case{Kind: "presend", Fault: "auth-error-after-getbody", Payload: p, Len: 700, Reader: "all", Debug: true})
-		if p != "json" && p != "none" {
+		if p != "json" && p != "none" && p != "fields" { // the payloads with an upload source
 			cs = append(cs, &Case{Kind: "upload", Payload: p, Len: 600, Offset: 550, Reader: "all", Debug: true})
 			cs = append(cs, &Case{Kind: "upload", Payload: p, Len: 64, Offset: -1, Reader: "all", Debug: true})
 		}
@@ -1201,7 +1768,7 @@ func enumerate(m *mon.M) []*Case {
 						}
 						cs = append(cs, &Case{Kind: "roundtrip", Fault: f, Payload: p, Len: 300, Reuse: reuse, Reader: rd, EOFWith: ew})
 						if reuse && f == "ok" {
-							for _, via := range []string{"with-client", "after-first-call"} {
+							for _, via := range []string{"with-client", "after-first-call", "with-client-nil-transport"} {
 								cs = append(cs, &Case{Kind: "roundtrip", Fault: f, Payload: p, Len: 300, Reuse: reuse, ReuseVia: via, Reader: rd, EOFWith: ew})
 							}
 						}
@@ -1210,15 +1777,27 @@ func enumerate(m *mon.M) []*Case {
 			}
 		}
 	}
-	// raw server faults at every response offset
+	// raw server faults at every response offset.
+	// The list is the same in every worker (run() deals it out by index). Thorough: every offset x action x reuse
+	// on/off (x every deadline source for stalls). Quick, deliberately: every offset x action is still placed, but
+	// the crossing with connection reuse is by offset parity (even offsets with reuse, odd ones without), except at
+	// the structural offsets (start, each CR and LF that ends a line of the status line / headers / chunk framing,
+	// last byte, complete response) where both are run; a stall takes one deadline source per offset (off mod 5).
 	for _, chunked := range []bool{false, true} {
-		full := len(cannedResponse(chunked))
+		canned := cannedResponse(chunked)
+		full := len(canned)
+		structural := map[int]bool{0: true, full - 1: true, full: true}
+		for i := 2; i <= full; i++ {
+			if canned[i-2] == '\r' && canned[i-1] == '\n' {
+				structural[i], structural[i-1] = true, true
+			}
+		}
 		for _, act := range []string{"close", "reset", "stall"} {
 			for off := 0; off <= full; off++ {
-				if quick && off%4 != m.Shard%4 && off != full && off != 0 {
-					continue
-				}
 				for _, reuse := range []bool{false, true} {
+					if quick && !structural[off] && reuse != (off%2 == 0) {
+						continue
+					}
 					dls := []string{"request"}
 					if act == "stall" {
 						dls = []string{"request", "context", "both-request-shorter", "both-context-shorter", "negative-request"}
@@ -1233,27 +1812,117 @@ func enumerate(m *mon.M) []*Case {
 						}
 						via := ""
 						if reuse {
-							via = []string{"", "with-client", "after-first-call"}[off%3]
+							via = []string{"", "with-client", "after-first-call", "with-client-nil-transport"}[off%4]
 						}
 						cs = append(cs, &Case{Kind: "server", Fault: act, Offset: off, Chunked: chunked, Reuse: reuse, ReuseVia: via, Deadline: dl, Payload: pl, Len: 40, Reader: "all"})
 						if act != "reset" && off%3 == 0 {
 							// a reader that stops early meets the stalled or truncated body (drain on close under reuse)
 							cs = append(cs, &Case{Kind: "server", Fault: act, Offset: off, Chunked: chunked, Reuse: reuse, ReuseVia: via, Deadline: dl, Payload: pl, Len: 40, Reader: []string{"none", "half"}[(off/3)%2]})
 						}
+						if !quick && act != "reset" && off%7 == 0 {
+							cs = append(cs, &Case{Kind: "server", Fault: act, Offset: off, Chunked: chunked, Reuse: reuse, ReuseVia: via, Deadline: dl, Payload: pl, Len: 40, Reader: []string{"all+close", "half+close"}[(off/7)%2]})
+						}
 					}
 				}
 			}
 		}
+		// the other ways of handing Submit its client and its context, against stalls and cuts: the operation's
+		// own client (the request timeout must still bound the call), Runtime.Context as the caller's context
+		hdrMid, bodyFirst, bodyMid := 30, full-len(cannedBody)-7, full-12
+		offs := []int{0, hdrMid, bodyMid}
+		if !quick {
+			offs = []int{0, 9, hdrMid, bodyFirst, bodyMid, full - 1, full}
+		}
+		for _, off := range offs {
+			pl := []string{"json", "file", "fields"}[off%3]
+			for _, reuse := range []bool{false, true} {
+				for _, dl := range []string{"request", "both-request-shorter", "negative-request"} {
+					if quick && reuse && dl != "request" {
+						continue
+					}
+					cs = append(cs, &Case{Kind: "server", Fault: "stall", Offset: off, Chunked: chunked, Reuse: reuse, Deadline: dl, Payload: pl, Len: 40, Reader: "all", OpClient: true})
+				}
+				for _, dl := range []string{"context", "both-context-shorter", "both-request-shorter"} {
+					if quick && reuse && dl != "context" {
+						continue
+					}
+					cs = append(cs, &Case{Kind: "server", Fault: "stall", Offset: off, Chunked: chunked, Reuse: reuse, Deadline: dl, Payload: pl, Len: 40, Reader: "all", CtxVia: "runtime"})
+				}
+				cs = append(cs, &Case{Kind: "server", Fault: "close", Offset: off, Chunked: chunked, Reuse: reuse, Deadline: "request", Payload: pl, Len: 40, Reader: "all", OpClient: true})
+				cs = append(cs, &Case{Kind: "server", Fault: "close", Offset: off, Chunked: chunked, Reuse: reuse, Deadline: "context", Payload: pl, Len: 40, Reader: "all", CtxVia: "runtime"})
+				if !quick {
+					cs = append(cs, &Case{Kind: "server", Fault: "stall", Offset: off, Chunked: chunked, Reuse: reuse, Deadline: "both-context-shorter", Payload: pl, Len: 40, Reader: "half", OpClient: true, CtxVia: "runtime"})
+				}
+			}
+		}
+	}
+	// a server that accepts and never reads: the deadline fires while the upload is blocked in the middle of the
+	// request body (the multipart goroutine in its pipe, the transport in the socket)
+	{
+		dls := []string{"request", "context"}
+		pls := []string{"file"}
+		if !quick {
+			dls = []string{"request", "context", "both-request-shorter", "both-context-shorter", "negative-request"}
+			pls = []string{"file", "files+fields", "typed-file", "reader"}
+		}
+		for _, pl := range pls {
+			for _, dl := range dls {
+				for _, reuse := range []bool{false, true} {
+					cs = append(cs, &Case{Kind: "server", Fault: "stall-unread", Payload: pl, Len: 16 << 20, Reuse: reuse, Deadline: dl, Reader: "all"})
+				}
+			}
+		}
+		if !quick {
+			cs = append(cs, &Case{Kind: "server", Fault: "stall-unread", Payload: "file", Len: 16 << 20, Deadline: "request", Reader: "all", OpClient: true})
+			cs = append(cs, &Case{Kind: "server", Fault: "stall-unread", Payload: "file", Len: 16 << 20, Deadline: "context", Reader: "all", CtxVia: "runtime"})
+		}
 	}
 	// cancellation at the hook points
 	for _, hp := range []string{"cl.submit.built", "cl.submit.clientReady", "cl.submit.beforeDo", "cl.submit.afterDo", "cl.multipart.part", "cl.getbody.copy"} {
-		for _, p := range []string{"file", "files+fields", "json", "reader"} {
+		for _, p := range []string{"file", "files+fields", "json", "reader", "fields"} {
 			if hp == "cl.multipart.part" && (p == "json" || p == "reader") {
 				continue // no multipart document is written for these payloads: the point cannot be reached
 			}
+			if hp == "cl.getbody.copy" && p == "json" {
+				continue // a value payload is produced into the request's own buffer: GetBody copies nothing
+			}
 			for _, reuse := range []bool{false, true} {
 				// cl.getbody.copy lies in GetBody, which only an auth writer calls
-				cs = append(cs, &Case{Kind: "cancel", HookPoint: hp, Payload: p, Len: 5000, Reuse: reuse, AuthGetBody: hp == "cl.getbody.copy"})
+				if p != "fields" || !quick {
+					cs = append(cs, &Case{Kind: "cancel", HookPoint: hp, Payload: p, Len: 5000, Reuse: reuse, AuthGetBody: hp == "cl.getbody.copy"})
+				}
+				// the server holds its answer after half the body and the call has no timeout: only the cancellation
+				// can end the call -- a cancellation that is dropped shows as a call that does not return
+				if !reuse && (p == "file" || p == "json" || p == "fields" || !quick) {
+					cs = append(cs, &Case{Kind: "cancel", HookPoint: hp, Payload: p, Len: 5000, Reuse: reuse, AuthGetBody: hp == "cl.getbody.copy", ServerHolds: true})
+				}
+			}
+		}
+	}
+	for _, hp := range []string{"cl.submit.beforeDo", "cl.submit.afterDo", "cl.multipart.part"} {
+		for _, p := range []string{"file", "json"} {
+			if hp == "cl.multipart.part" && p == "json" {
+				continue
+			}
+			for _, holds := range []bool{false, true} {
+				cs = append(cs, &Case{Kind: "cancel", HookPoint: hp, Payload: p, Len: 5000, ServerHolds: holds, CtxVia: "runtime"})
+				cs = append(cs, &Case{Kind: "cancel", HookPoint: hp, Payload: p, Len: 5000, ServerHolds: holds, OpClient: true})
+				if !quick {
+					cs = append(cs, &Case{Kind: "cancel", HookPoint: hp, Payload: p, Len: 5000, Reuse: true, ServerHolds: holds, CtxVia: "runtime", OpClient: true})
+				}
+			}
+		}
+	}
+	// the reuse wrapper alone: a Read sequence, then the rest moved by io.Copy into a destination that fails
+	// part-way (or takes everything), then Close
+	for _, l := range []int{10, 100, 300000} {
+		for _, ew := range []bool{false, true} {
+			for _, ch := range []int{0, 7} {
+				for _, szs := range [][]int{nil, {1}, {0}, {3, 3}} {
+					for _, cf := range []int{1, l / 2, l + 10} {
+						cs = append(cs, &Case{Kind: "drain", Len: l, EOFWith: ew, Chunk: ch * (1 + l/1000), Sizes: szs, CopyFailAt: cf})
+					}
+				}
 			}
 		}
 	}
